@@ -9,7 +9,7 @@ pure builtins on already-folded values.
 """
 import ast
 
-from .absint import BlockEval, FoldedRaise, Outcome, bind_arguments
+from .absint import BlockEval, FoldedRaise, LocalFunc, Outcome, bind_arguments
 from .consteval import (ClassRef, Folder, FuncRef, Lam, Opaque, Partial, Record, SymStr, TOP, Unknown, SAFE_BUILTINS)
 from .report import AnalysisError
 
@@ -36,11 +36,14 @@ class BoundMethod:
         self.obj, self.func, self.name = obj, func, name
 
 
-class LocalFunc:
-    """A function defined inside a function being interpreted (closure over the defining environment)."""
+class NativeFunc:
+    """A stub supplied by a rule: fn(args, kwargs) -> value (may raise FoldedRaise / Unknown)."""
 
-    def __init__(self, node, env):
-        self.node, self.env = node, env
+    def __init__(self, fn, name="stub"):
+        self.fn, self.name = fn, name
+
+    def __deepcopy__(self, memo):
+        return self
 
 
 class ClassFunc:
@@ -60,6 +63,21 @@ class OFolder(Folder):
         self.depth = depth
         self._level = 0
         self.hash_log = []
+        self.stubs = {}          # (module, function qualname) -> fn(args, kw)
+        self.overrides = {}      # module name -> {global name: value} used when a function of that module is interpreted
+        try:
+            import wcwidth as _w
+            self._wc = {"wcswidth": _w.wcswidth, "wcwidth": _w.wcwidth}
+        except Exception:    # pragma: no cover
+            self._wc = {}
+
+    def _interp(self):
+        if self.interp is None:
+            self.interp = ObjInterp.__new__(ObjInterp)
+            BlockEval.__init__(self.interp, self, max_states=512)
+            self.interp.ofolder = self
+            self.interp.src = self.src
+        return self.interp
 
     # ---- class helpers ---------------------------------------------------------------
     def _find_method(self, obj_or_cls, name):
@@ -82,6 +100,8 @@ class OFolder(Folder):
         if self._level >= self.depth:
             raise Unknown("inlining depth exceeded at %s" % func.qualname)
         env = dict(closure_env) if closure_env is not None else dict(self.module(func.module.name))
+        if closure_env is None and func.module.name in self.overrides:
+            env.update(self.overrides[func.module.name])
         node = func.node
         a = list(args)
         if self_obj is not None:
@@ -89,7 +109,7 @@ class OFolder(Folder):
         bind_arguments(self, node, a, kw, env)
         self._level += 1
         try:
-            outs = self.interp.run_function(node, env)
+            outs = self._interp().run_function(node, env)
         finally:
             self._level -= 1
         return self._single(outs, getattr(func, "qualname", getattr(node, "name", "?")))
@@ -148,7 +168,7 @@ class OFolder(Folder):
     # ---- overridden value operations -------------------------------------------------------
     @staticmethod
     def _plain(v):
-        if isinstance(v, (Obj, BoundMethod, LocalFunc, ClassFunc, EnumMember)):
+        if isinstance(v, (Obj, BoundMethod, LocalFunc, ClassFunc, EnumMember, NativeFunc)):
             return
         Folder._plain(v)
 
@@ -308,6 +328,36 @@ class OFolder(Folder):
                 return
         return Folder.assign(self, t, v, env)
 
+    def v_iop(self, op, cur, rhs):
+        names = {ast.Add: "__iadd__", ast.Mult: "__imul__", ast.BitOr: "__ior__", ast.Sub: "__isub__"}
+        if isinstance(cur, Obj) and type(op) in names:
+            r = self.dunder(cur, names[type(op)], rhs)
+            if r is not _Missing and r is not NotImplemented:
+                return r
+            if cur.payload is not None and isinstance(op, ast.BitOr):
+                cur.payload.update(rhs.payload if isinstance(rhs, Obj) and rhs.payload is not None else rhs)
+                return cur
+        return self.v_binop(op, cur, rhs)
+
+    def del_item(self, base, idx):
+        if isinstance(base, Obj):
+            r = self.dunder(base, "__delitem__", idx)
+            if r is _Missing:
+                if base.payload is not None:
+                    del base.payload[idx]
+                    return
+                raise FoldedRaise("TypeError", "item deletion")
+            return
+        raise Unknown("delete on %r" % (base,))
+
+    def enter_context(self, cm):
+        if isinstance(cm, Obj):
+            r = self.dunder(cm, "__enter__")
+            if r is _Missing:
+                raise Unknown("not a context manager")
+            return r
+        raise Unknown("context manager %r" % (cm,))
+
     def _index(self, t, env):
         if isinstance(t.slice, ast.Slice):
             return slice(*(self.expr(x, env) if x is not None else None for x in (t.slice.lower, t.slice.upper, t.slice.step)))
@@ -329,9 +379,20 @@ class OFolder(Folder):
             raise FoldedRaise("KeyError", str(e))
 
     def v_call(self, f, args, kw, node, env):
+        if isinstance(f, NativeFunc):
+            return f.fn(args, kw)
+        if isinstance(f, FuncRef) and (f.mod, f.name) in self.stubs:
+            return self.stubs[(f.mod, f.name)](args, kw)
+        if isinstance(f, Opaque) and f.what.startswith("import cwcwidth.") and f.what.split(".")[-1] in self._wc:
+            if any(isinstance(a, SymStr) for a in args):
+                raise Unknown("width of symbolic text")
+            return self._wc[f.what.split(".")[-1]](*args, **kw)
         if isinstance(f, ClassRef):
             return self.construct(f, args, kw)
         if isinstance(f, BoundMethod):
+            key = (f.func.module.name, f.func.qualname)
+            if key in self.stubs:
+                return self.stubs[key]([f.obj] + list(args), kw)
             return self._inline(f.func, args, kw, self_obj=f.obj)
         if isinstance(f, ClassFunc):
             return self._inline(f.func, args, kw)
@@ -420,9 +481,11 @@ class OFolder(Folder):
             return f.call(args, kw)
         if getattr(f, "__self__", None) is not None and isinstance(f.__self__, dict) and f.__name__ == "get" and anyobj:
             return f(*args, **kw)
-        # dict(...) / list(...) etc. given Obj-with-payload arguments
-        if f in (dict, list, tuple, sorted, set, frozenset) and any(isinstance(a, Obj) and a.payload is not None for a in args):
+        # builtin containers/methods given a dict-subclass model: they see its payload (update(atts), dict(atts), ...)
+        if not isinstance(f, (Lam, FuncRef, Opaque, Partial)) and f not in (isinstance, type, hash, id) and \
+                any(isinstance(a, Obj) and a.payload is not None for a in list(args) + list(kw.values())):
             args = [a.payload if isinstance(a, Obj) and a.payload is not None else a for a in args]
+            kw = {k: (a.payload if isinstance(a, Obj) and a.payload is not None else a) for k, a in kw.items()}
         if f in (list, tuple, sorted, set, frozenset, enumerate, zip, reversed, max, min, "".join.__class__) or \
                 getattr(f, "__name__", "") in ("join", "append", "extend", "get", "items", "keys", "values", "update", "format", "chain"):
             # containers of objects are fine for structural builtins
@@ -509,66 +572,16 @@ class ObjInterp(BlockEval):
         self.ofolder.interp = self
         self.src = src
 
-    def _test(self, test, state):
-        # truth of objects goes through the folder's v_truth
-        env, assume, eff = state
-        if isinstance(test, (ast.BoolOp,)) or (isinstance(test, ast.UnaryOp) and isinstance(test.op, ast.Not)):
-            return BlockEval._test(self, test, state)
-        try:
-            v = self.folder.expr(test, env)
-            return [(self.folder.v_truth(v), state)]
-        except Unknown:
-            pass
-        txt = ast.unparse(test)
-        for t, v in assume:
-            if t == txt:
-                return [(v, state)]
-        return [(True, (env, assume + [(txt, True)], eff)), (False, (env, assume + [(txt, False)], eff))]
-
-    def _stmt(self, st, state, outs):
-        env, assume, eff = state
-        if isinstance(st, (ast.FunctionDef,)):
-            env = dict(env)
-            lf = LocalFunc(st, env)
-            env[st.name] = lf
-            return [(env, assume, eff)]
-        if isinstance(st, ast.AugAssign) and not isinstance(st.target, ast.Name):
-            try:
-                load = _as_load(st.target)
-                cur = self.folder.expr(load, env)
-                rhs = self.folder.expr(st.value, env)
-                self.folder.assign(st.target, self.folder.v_binop(st.op, cur, rhs), env)
-                return [state]
-            except Unknown as e:
-                outs.append(Outcome("fall", None, env, assume, eff, "augmented assignment: %s" % e))
-                return []
-            except FoldedRaise as e:
-                outs.append(Outcome("raise", e.name, env, assume, eff))
-                return []
-        if isinstance(st, (ast.Assign, ast.AnnAssign)) and getattr(st, "value", None) is not None:
-            targets = st.targets if isinstance(st, ast.Assign) else [st.target]
-            if any(isinstance(t, ast.Attribute) for t in targets):
-                try:
-                    v = self.folder.expr(st.value, env)
-                    for t in targets:
-                        self.folder.assign(t, v, env)
-                    return [state]
-                except Unknown as e:
-                    outs.append(Outcome("fall", None, env, assume, eff, "attribute store: %s" % e))
-                    return []
-                except AnalysisError:
-                    raise
-                except FoldedRaise as e:
-                    outs.append(Outcome("raise", e.name, env, assume, eff))
-                    return []
-        return BlockEval._stmt(self, st, state, outs)
-
     # convenience ---------------------------------------------------------------------
     def call(self, module, funcname, *args, **kw):
         """Call a module-level function or `Class.method` (unbound, pass self explicitly) on folded values."""
         f = self.src.func(module, funcname)
         outs_env = dict(self.folder.module(module))
-        bind_arguments(self.folder, f.node, list(args), kw, outs_env)
+        outs_env.update(self.folder.overrides.get(module, {}))
+        try:
+            bind_arguments(self.folder, f.node, list(args), kw, outs_env)
+        except FoldedRaise as e:
+            return [Outcome("raise", e.name, outs_env, [], [])]
         outs = self.run_function(f.node, outs_env)
         return outs
 
